@@ -199,13 +199,52 @@ def unspecified_mask(sg):
     return comps
 
 
-def drop_masked(results, mask):
+SHAPE_REFS = (SH.node, SH.property, SH["not"], SH.qualifiedValueShape)
+LIST_REFS = (SH["and"], SH["or"], SH.xone)
+COMPOSED = ("Not", "And", "Or", "Xone", "Node", "QualifiedMinCount", "QualifiedMaxCount", "QualifiedValueShape")
+
+
+def dependent_shapes(sg, mask):
+    """shapes whose conformance may depend on a masked comparison: every shape that refers (through sh:node, sh:property, sh:not,
+    sh:qualifiedValueShape or a member of sh:and / sh:or / sh:xone), directly or indirectly, to the owner of a masked component"""
+    if not mask:
+        return set()
+    parents = {}
+    for pred in SHAPE_REFS:
+        for s, o in sg.subject_objects(pred):
+            parents.setdefault(wire.tkey(o), set()).add(wire.tkey(s))
+    for pred in LIST_REFS:
+        for s, l in sg.subject_objects(pred):
+            try:
+                for m in sg.items(l):
+                    parents.setdefault(wire.tkey(m), set()).add(wire.tkey(s))
+            except Exception:  # noqa
+                pass
+    # siblings of a qualified value shape count too (sh:qualifiedValueShapesDisjoint)
+    for s, o in sg.subject_objects(SH.qualifiedValueShape):
+        for parent in sg.subjects(SH.property, s):
+            for ps in sg.objects(parent, SH.property):
+                parents.setdefault(wire.tkey(o), set()).add(wire.tkey(ps))
+    out, work = set(), [s for (s, _n) in mask]
+    while work:
+        x = work.pop()
+        for p in parents.get(x, ()):
+            if p not in out:
+                out.add(p)
+                work.append(p)
+    return out
+
+
+def drop_masked(results, mask, dependents=frozenset()):
     if not mask:
         return results, False
     out, dropped = [], False
     for r in results:
         name = r["component"].rsplit("#", 1)[-1].replace("ConstraintComponent", "")
         if (r["shape"], name) in mask and _is_lang(r["value"]):
+            dropped = True
+            continue
+        if r["shape"] in dependents and name in COMPOSED:
             dropped = True
             continue
         out.append(r)
@@ -221,8 +260,9 @@ def compare(code, model, sg, with_detail=True):
     if model[0] != "ok":
         return "code returned a report, model %s" % (model[1],)
     mask = unspecified_mask(sg)
-    cres, d1 = drop_masked(code[2], mask)
-    mres, d2 = drop_masked(model[2], mask)
+    deps = dependent_shapes(sg, mask)
+    cres, d1 = drop_masked(code[2], mask, deps)
+    mres, d2 = drop_masked(model[2], mask, deps)
     if code[1] != model[1] and not (d1 or d2):
         return "verdict: code %s model %s" % (code[1], model[1])
     dms = declared_msg_shapes(sg)
